@@ -102,7 +102,7 @@ func VerifC04Tuple() {
 	verifAssert(err == nil, "C04.tuple: seek")
 	entries := make([]Entry, tb.records)
 	bitmap := make([]byte, 1<<21)
-	nonce := uint32(hi%2) * 999
+	nonce := uint32(hi%2) * 499
 	err = hashBucket(tb.valueSize, bufio.NewReader(tb.file), entries, bitmap, nonce)
 	collide := k == 2 && low[0] == low[1]
 	if collide {
